@@ -86,6 +86,8 @@ func stackLabels(c *muxCase) []string {
 // TestL5UpgraderStack: the real upgrader (optional PSK conn + Noise or TLS + yamux,
 // muxer chosen inside the handshake or by multistream) on both ends of one pipe.
 func TestL5UpgraderStack(t *testing.T) {
+	skipIfLowerLayerFailed(t)
+	defer noteFailure(t)
 	name := t.Name()
 	hx.Check(t, 200, 8000, 0, func(rt *rapid.T) {
 		c := &muxCase{Layer: "upgrader"}
@@ -330,6 +332,7 @@ func pidOf(idx int) protocol.ID { return protocol.ID(fmt.Sprintf("/c02/stream/%d
 // TestL5Hosts: BasicHost.NewStream between two hosts (swarm streams, identify running
 // alongside), each stream negotiated either eagerly or through the lazy wrapper.
 func TestL5Hosts(t *testing.T) {
+	skipIfLowerLayerFailed(t)
 	name := t.Name()
 	hx.Check(t, 120, 4000, 0, func(rt *rapid.T) {
 		c := &hostCase{}
